@@ -112,8 +112,12 @@ def replay(d):
 def check(run):
     run.level = "other"
     run.explanation = ("bounded stand-in for the relational claim: the real Balancer is run on a reaction and on random rewritings of it (atom order, kekulised / "
-                       "aromatic form, atom maps, molecule order); verdict and added molecules must coincide. Deductively supported by the composition contracts "
-                       "(the verdict is a function of the two compositions) proved for C07")
+                       "aromatic form, atom maps, molecule order); verdict and added molecules must coincide. Deductive part: the composition-level verdict is a function of the two "
+                       "composition maps (compare_dicts / diff_dicts), the maps count every atom of the hydrogen-complete molecule once (decompose), the batch wrappers "
+                       "keep positions (data_decomposer, run_parallel, check_carbon_balance) and the carbon label compares sums over all molecule occurrences of each "
+                       "side (process_reaction); that RDKit's molecule is independent of the spelling is its own contract and only exercised by the stand-in")
+    from checks.props import pipeline_common as PC
+    PC.deductive(run)
     rnd = random.Random(run.seed)
     pool = list(BASE) + ["CC.O>>CC.[H][H]", "C=CC.[H][H]>>CCC.[H][H]"] + [r for r in P.validation_reactions(40 if run.tier == "quick" else 500, seed=run.seed)]
     fails, marker_fails, cases, det = [], [], 0, 0
